@@ -144,7 +144,7 @@ var propSpecs = []PropSpec{
 			}
 		}},
 	{ID: "C20", Pkgs: []string{"pubsub"},
-		BoundsQ:     "one iterator goroutine (Queue Producer/Iterator; Deque forward/reverse x blocking/non-blocking producers), initial contents <=2 symbolic items, one mutator goroutine with <=3 (queue) / <=2 (deque) operations out of {Add/Push at the far end, Close, cancel} and, in the removal regime, Remove/Pop and pushes at the near end; preemption bound 2 (queue) / 1 (deque)",
+		BoundsQ:     "one iterator goroutine (Queue Producer/Iterator; Deque forward/reverse x blocking/non-blocking producers), initial contents <=2 symbolic items (plus a burst-credit queue scenario with a parked BlockingAdd and a parked iterator), one mutator goroutine with <=3 (queue) / <=2 (deque) operations out of {Add/Push at the far end, Close, cancel} and, in the removal regime, Remove/Pop and pushes at the near end; preemption bound 2 (queue) / 1 (deque)",
 		BoundsT:     "deque: <=3 mutations; preemption bound 3 / 2",
 		Outside:     "more items or mutations; several iterators at once; with concurrent removal only the weak clauses of the statement are asserted",
 		Assumptions: commonAssumptions,
